@@ -414,7 +414,28 @@ def judge_layout(c2m, rows, tag, engines, st, mutate=None):
 
 # ----------------------------------------------------------------------------------------------- by-value passing
 NSEED = 3            # value sets per shape (for unions each set activates another member)
-TESTS = ["a1", "a2", "a3", "a4", "a5", "a6", "r", "r2"]
+TESTS = ["a1", "a2", "a3", "a4", "a5", "a6", "r", "r2", "a7", "a8", "a9", "a10", "a11", "a12"]
+
+
+def has_union(T):
+    if T["k"] == "s":
+        return False
+    if T["k"] == "a":
+        return has_union(T["el"])
+    return T["k"] == "un" or any(m["m"] != "b" and has_union(m["ty"]) for m in T["ms"])
+
+
+def leaf_kinds(r):
+    """which kinds of leaves an aggregate of at most 16 bytes has (i integer, f float, d double, L long double,
+    b bit-field) and whether members are overlaid (u): the classes of an eightbyte depend on the mix, so every mix of
+    a (classes, size) group gets its own by-value representatives; "" for larger aggregates (MEMORY by size)"""
+    if r["sz"] > 16:
+        return ""
+    ks = set()
+    for l in r["lv"]:
+        if l["p"]:
+            ks.add("b" if l["bit"] >= 0 else {"float": "f", "double": "d", "ldouble": "L"}.get(l["t"], "i"))
+    return "".join(sorted(ks)) + ("u" if has_union(r["d"]) else "")
 
 
 def leaf_sig(r):
@@ -526,6 +547,14 @@ def protos(P, i):
         ("a6", ("int", "%s a, %s b, %s c, %s d, int s" % (T, T, T, T))),
         ("r", (T, "int s")),
         ("r2", (T, "%s a, int s" % T)),
+        # two aggregates of different types with a partly used register file: the one that does not fit goes to memory
+        # as a whole and must leave the registers to the next one (K1/K2: one/two INTEGER eightbytes, KD1/KD2: SSE)
+        ("a7", ("int", "%s, %s a, struct K1 k1, int s" % (LONGS(1, 5), T))),
+        ("a8", ("int", "%s, %s a, struct KD1 kd1, int s" % (DBLS(1, 7), T))),
+        ("a9", ("int", "%s, struct K2 k2, %s a, int s" % (LONGS(1, 5), T))),
+        ("a10", ("int", "%s, struct KD2 kd2, %s a, int s" % (DBLS(1, 7), T))),
+        ("a11", ("int", "%s, %s a, struct KD1 kd1, struct K1 k1, int s" % (LONGS(1, 6), T))),
+        ("a12", ("int", "%s, %s a, struct K1 k1, struct KD1 kd1, int s" % (DBLS(1, 8), T))),
     ])
 
 
@@ -554,6 +583,12 @@ def gen_shape_funcs(P, i, defs=True):
     L.append("%s %sr_%d(%s) { %s x; fill%d(&x, s); return x; }" % (T, P, i, pr["r"][1], T, i))
     L.append("%s %sr2_%d(%s) { %s x; if (chk%d(&a, s)) { memset(&x, 0x5a, sizeof x); return x; } fill%d(&x, s + 1); return x; }"
              % (T, P, i, pr["r2"][1], T, i, i))
+    L.append("int %sa7_%d(%s) { return chk%d(&a, s) + ck1(&k1, s) + %s; }" % (P, i, pr["a7"][1], i, li))
+    L.append("int %sa8_%d(%s) { return chk%d(&a, s) + ckd1(&kd1, s) + %s; }" % (P, i, pr["a8"][1], i, d7))
+    L.append("int %sa9_%d(%s) { return chk%d(&a, s) + ck2(&k2, s) + %s; }" % (P, i, pr["a9"][1], i, li))
+    L.append("int %sa10_%d(%s) { return chk%d(&a, s) + ckd2(&kd2, s) + %s; }" % (P, i, pr["a10"][1], i, d7))
+    L.append("int %sa11_%d(%s) { return chk%d(&a, s) + ckd1(&kd1, s) + ck1(&k1, s) + %s; }" % (P, i, pr["a11"][1], i, l6))
+    L.append("int %sa12_%d(%s) { return chk%d(&a, s) + ck1(&k1, s) + ckd1(&kd1, s) + %s; }" % (P, i, pr["a12"][1], i, d8))
     L.append(gen_driver(P, i))
     L.append("int %sself_%d(void) { static const struct cb%d cb = {%s}; return %sdrv_%d(&cb); }"
              % (P, i, i, ", ".join("%s%s_%d" % (P, n, i) for n in pr), P, i))
@@ -568,16 +603,19 @@ def call_args(n, sv):
     d8 = d7 + ", 8.5 + %s" % sv
     return {"a1": "a, %s" % sv, "a2": "11 + %s, 2.5 + %s, a, %s" % (sv, sv, sv),
             "a3": "%s, a, 600 + %s, b, %s" % (li, sv, sv), "a4": "%s, a, 8.5 + %s, b, %s" % (d7, sv, sv),
-            "a5": "%s, %s, a, %s" % (l6, d8, sv), "a6": "a, b, c, d, %s" % sv, "r": sv, "r2": "a, %s" % sv}[n]
+            "a5": "%s, %s, a, %s" % (l6, d8, sv), "a6": "a, b, c, d, %s" % sv, "r": sv, "r2": "a, %s" % sv,
+            "a7": "%s, a, k1, %s" % (li, sv), "a8": "%s, a, kd1, %s" % (d7, sv), "a9": "%s, k2, a, %s" % (li, sv),
+            "a10": "%s, kd2, a, %s" % (d7, sv), "a11": "%s, a, kd1, k1, %s" % (l6, sv),
+            "a12": "%s, a, k1, kd1, %s" % (d8, sv)}[n]
 
 
 def gen_driver(P, i):
     """calls every function of a table with filled aggregates; bit k of the result = test k failed"""
     T = "T%d" % i
     L = ["int %sdrv_%d(const struct cb%d *cb) {" % (P, i, i),
-         "  %s a, b, c, d, x; int m = 0, s;" % T,
+         "  %s a, b, c, d, x; int m = 0, s;" % T, COMP_DECL,
          "  for (s = 0; s < %d; s++) {" % NSEED,
-         "    fill%d(&a, s); fill%d(&b, s + 1); fill%d(&c, s + 2); fill%d(&d, s + 3);" % (i, i, i, i)]
+         "    fill%d(&a, s); fill%d(&b, s + 1); fill%d(&c, s + 2); fill%d(&d, s + 3); %s" % (i, i, i, i, COMP_FILL)]
     for k, n in enumerate(TESTS):
         if n == "r":
             L.append("    x = cb->r(s); if (chk%d(&x, s)) m |= %d;" % (i, 1 << k))
@@ -595,7 +633,25 @@ def gen_cb_type(i):
 
 
 _SELFTEST_LIE = None
-BV_PRELUDE = "#include <stdio.h>\n#include <string.h>\nenum E { E0, E1, E2 };\n"
+BV_PRELUDE = """#include <stdio.h>
+#include <string.h>
+enum E { E0, E1, E2 };
+/* companion aggregates of fixed classes: K1 INTEGER, K2 INTEGER,INTEGER, KD1 SSE, KD2 SSE,SSE */
+struct K1 { int x, y; };
+struct K2 { long a, b; };
+struct KD1 { double d; };
+struct KD2 { double a, b; };
+static void mk1(struct K1 *k, int s) { k->x = 7001 + s; k->y = -9002 - s; }
+static int ck1(const struct K1 *k, int s) { return (k->x != 7001 + s) + (k->y != -9002 - s); }
+static void mk2(struct K2 *k, int s) { k->a = 0x123456789abcL + s; k->b = -0x3456789abcdeL - s; }
+static int ck2(const struct K2 *k, int s) { return (k->a != 0x123456789abcL + s) + (k->b != -0x3456789abcdeL - s); }
+static void mkd1(struct KD1 *k, int s) { k->d = 4096.25 + s; }
+static int ckd1(const struct KD1 *k, int s) { return k->d != 4096.25 + s; }
+static void mkd2(struct KD2 *k, int s) { k->a = -77.5 - s; k->b = 123456.125 + s; }
+static int ckd2(const struct KD2 *k, int s) { return (k->a != -77.5 - s) + (k->b != 123456.125 + s); }
+"""
+COMP_DECL = "  struct K1 k1; struct K2 k2; struct KD1 kd1; struct KD2 kd2;"
+COMP_FILL = "mk1(&k1, s); mk2(&k2, s); mkd1(&kd1, s); mkd2(&kd2, s);"
 
 
 def gen_byvalue_units(shapes, base, seed_):
@@ -615,12 +671,12 @@ def gen_byvalue_units(shapes, base, seed_):
         main += common + gen_shape_funcs("g_", i, defs=False) + cf
         T = "T%d" % i
         R = ["static void run%d(void) {" % i, "#ifndef SKIP_%d" % i,
-             "  %s a, b, c, d, x; int s, m;" % T,
+             "  %s a, b, c, d, x; int s, m;" % T, COMP_DECL,
              "  static const struct cb%d cb = {%s};" % (i, ", ".join("c_%s_%d" % (n, i) for n in TESTS)),
              '  mark(%d, "gccself"); say(%d, "gccself", g_self_%d());' % (i, i, i),
              '  mark(%d, "c2mself"); say(%d, "c2mself", c_self_%d());' % (i, i, i),
              "  for (s = 0; s < %d; s++) {" % NSEED,
-             "    fill%d(&a, s); fill%d(&b, s + 1); fill%d(&c, s + 2); fill%d(&d, s + 3);" % (i, i, i, i)]
+             "    fill%d(&a, s); fill%d(&b, s + 1); fill%d(&c, s + 2); fill%d(&d, s + 3); %s" % (i, i, i, i, COMP_FILL)]
         for n in TESTS:
             R.append('    mark(%d, "cg_%s");' % (i, n))
             if n == "r":
@@ -859,13 +915,14 @@ def run_static_unit(c2m, rows, base, tag):
 TIERS = {
     "quick": {
         "jobs": [("flat3", "CLayout_mc.cfg", 1, None, None), ("flat2", "CLayout_mc2.cfg", 1, None, None),
-                 ("nest", "CLayout_nest.cfg", 1, None, None), ("sim", "CLayout_sim.cfg", 1, 1500, 60)],
+                 ("nest", "CLayout_nest.cfg", 1, None, None), ("ld", "CLayout_ld.cfg", 1, None, None),
+                 ("sim", "CLayout_sim.cfg", 1, 1500, 60)],
         "layout_engines": ["-ei"], "bv_engines": ["-ei", "-eg -O2"], "per_group": 3, "mem_sizes": 10, "per_mem": 1,
         "probe": 3000, "static": 2000, "tlc_par": 3,
     },
     "thorough": {
         "jobs": [("flat3", "CLayout_mc.cfg", 1, None, None), ("flat2", "CLayout_mc2.cfg", 1, None, None),
-                 ("nest", "CLayout_nest.cfg", 1, None, None),
+                 ("nest", "CLayout_nest.cfg", 1, None, None), ("ld", "CLayout_ld.cfg", 1, None, None),
                  ("flat2w", "CLayout_t.cfg", 3, None, None), ("flat3m", "CLayout_t2.cfg", 3, None, None),
                  ("nestw", "CLayout_nest_t.cfg", 3, None, None), ("sim", "CLayout_sim.cfg", 2, 6000, 60)],
         "layout_engines": ["-ei", "-eg -O2"], "bv_engines": ["-ei", "-eg -O0", "-eg -O2"], "per_group": 12, "mem_sizes": 60,
@@ -874,7 +931,10 @@ TIERS = {
 }
 ENG_TAG = {"-ei": "interp", "-eg -O0": "gen_O0", "-eg -O2": "gen_O2", "-eg": "gen"}
 POS = {"a1": "arg_first", "a2": "arg_mixed_with_scalars", "a3": "arg_after_int_regs", "a4": "arg_after_sse_regs",
-       "a5": "arg_all_regs_used", "a6": "four_aggregate_args", "r": "ret", "r2": "arg_and_ret"}
+       "a5": "arg_all_regs_used", "a6": "four_aggregate_args", "r": "ret", "r2": "arg_and_ret",
+       "a7": "arg_after_5_int_regs_then_1_eightbyte_int_aggregate", "a8": "arg_after_7_sse_regs_then_1_eightbyte_sse_aggregate",
+       "a9": "arg_after_spilled_2_eightbyte_int_aggregate", "a10": "arg_after_spilled_2_eightbyte_sse_aggregate",
+       "a11": "arg_after_6_int_regs_then_sse_and_int_aggregates", "a12": "arg_after_8_sse_regs_then_int_and_sse_aggregates"}
 K_CLS = {"nc": "abi:classify:nested_aggregate_offset_ignored",
          "zc": "abi:classify:zero_width_bitfield_counts_as_integer"}
 
@@ -1031,7 +1091,7 @@ def run(tier, mutate=None, only=None):
                     ck.violation(k, text, case)
             for x in rows:
                 if not x["alts"]:
-                    groups[(tuple(x["cls"]), tuple(sorted(x["cdev"])), x["sz"])].setdefault(leaf_sig(x), x)
+                    groups[(tuple(x["cls"]), tuple(sorted(x["cdev"])), x["sz"], leaf_kinds(x))].setdefault(leaf_sig(x), x)
             pool = [x for x in rows if x["sz"] <= 32]
             probe_pool += rng.sample(pool, min(len(pool), P["probe"] // len(jobs) + 1))
             pool = [x for x in rows if not x["alts"]]
@@ -1043,7 +1103,7 @@ def run(tier, mutate=None, only=None):
     shapes = []
     memk = sorted(k for k in groups if k[0] == ("MEMORY",) and k[2] > 16)
     keep = set(memk) if len(memk) <= P["mem_sizes"] else set(memk[:P["mem_sizes"] // 2]) | set(rng.sample(memk[P["mem_sizes"] // 2:], P["mem_sizes"] - P["mem_sizes"] // 2))
-    for k in sorted(groups, key=lambda k: (k[2], k[0], k[1])):
+    for k in sorted(groups, key=lambda k: (k[2], k[0], k[1], k[3])):
         v = [groups[k][s] for s in sorted(groups[k])]
         rng.shuffle(v)
         if k in keep:
